@@ -31,6 +31,7 @@ def run(report, db, tier):
     classes = P.all_table_classes(P.known)
     report.note('versions', len(versions))
     report.floor('registered packet classes', len(classes), 45)
+    aliased_records(report, db, cg)
     r1(report, db, P)
     r2(report, db, P, classes, versions)
     r3(report, db, P, cg, classes, versions)
@@ -56,6 +57,42 @@ def run(report, db, tier):
 
 
 # ---------------------------------------------------------------------------
+def aliased_records(report, db, cg):
+    # records read in a loop are separate objects
+    Ra = report.rule('R05.9a', 'a list of records is made of separate '
+                     'objects: no `[make()] * n` (one object n times) in the '
+                     'packet and wire-type code')
+    na = 0
+    nbad = 0
+    for fi in db.funcs:
+        if not fi.module.name.startswith('minecraft.networking.') or \
+                isinstance(fi.node, ast.Lambda):
+            continue
+        na += 1
+        for x in cg.shallow(fi) if hasattr(cg, 'shallow') else ast.walk(
+                fi.node):
+            if isinstance(x, ast.BinOp) and isinstance(x.op, ast.Mult):
+                for side, other in ((x.left, x.right), (x.right, x.left)):
+                    if isinstance(side, ast.List) and any(
+                            isinstance(e, ast.Call) and not (
+                                isinstance(e.func, ast.Name) and e.func.id in
+                                ('int', 'str', 'bytes', 'float', 'bool',
+                                 'tuple', 'frozenset', 'len'))
+                            for e in side.elts) and not isinstance(
+                                other, ast.List):
+                        nbad += 1
+                        report.violation(
+                            Ra, 'aliased-records:%s' % fi.qualname, fi.path,
+                            x, fi.qualname, '%s makes a list that holds ONE '
+                            'object several times: filling "each" entry in '
+                            'a loop overwrites the same record, so every '
+                            'element reads back as the last one'
+                            % ast.unparse(x)[:60])
+    if not nbad:
+        report.ok(Ra, 'no multiplied list of constructed objects')
+    report.floor('functions scanned for aliased record lists', na, 300)
+
+
 def r9(report, db, P, cg, classes):
     """An optional field is present when it is not None.  A hand-written
     writer that decides by the field's *truth* whether to send it loses the
